@@ -5,6 +5,7 @@ CONFIG = {
     "extracted": ["c04"],
     "driver": "c04",
     "harness": "c04",
+    "include_cpp": ["polygon.cpp"],   # static is_rectangle / is_trapezoid, reached by #include in the harness
     "expect_model": False,   # the driver prints specification-level results (S), there is no statement-level model (M)
     "rule": ("cases: (a) kind gdstk - libraries drawn as for C02 (without the input classes of known defects) saved by write_oas "
              "under option words walking through all 256 flag combinations, deflate levels 0-9 (CBLOCKs inflated and spliced by "
@@ -15,7 +16,9 @@ CONFIG = {
              "bit, XYRELATIVE, repetition types 0-11, point-list types 0-5, real types 0-7, all record kinds and the 26 compact "
              "trapezoids, names inline or through tables with implicit / explicit numbering placed before or after use, PROPERTY "
              "/ LAST_PROPERTY with modal name and values, PAD, CBLOCK, offsets in START or END, validation 0/1/2) loaded by "
-             "read_oas (I), decoded by spec_oas_decode (S) and compared with the encoder's own expectation (P). Non-trivial: "
+             "read_oas (I), decoded by spec_oas_decode (S) and compared with the encoder's own expectation (P). (c) kind detect - "
+             "is_rectangle / is_trapezoid of polygon.cpp on 3 / 4 integer points (compact-trapezoid shapes in every rotation and "
+             "orientation, random points on a 7x7 / 15x15 grid, forced parallel sides) against the extracted model OasisDetect.v (M). Non-trivial: "
              "every case (each file has at least a START, one CELL and an END record); distinct = distinct byte strings"),
     "trusted": ["harness/oas_scan.hpp record scanner (CBLOCK splicing, END fields)", "harness/oas_encoder.hpp",
                 "ocaml/c04_driver.ml: canonical dump of the decoded layout (text formatting, sorting, double conversion of reals)"],
